@@ -25,9 +25,14 @@ def main():
         return 1
     dst = os.path.join(VERIF, "seeded", "%s-%s" % (pid, k))
     os.makedirs(dst, exist_ok=True)
-    for fn in ("patch.diff", "demo.py", "notes.md"):
-        if os.path.exists(os.path.join(src, fn)):
-            shutil.copy(os.path.join(src, fn), os.path.join(dst, fn))
+    for fn in os.listdir(src):
+        a = os.path.join(src, fn)
+        if fn.endswith(".log") or fn == "__pycache__":
+            continue
+        if os.path.isdir(a):
+            shutil.copytree(a, os.path.join(dst, fn), dirs_exist_ok=True, ignore=shutil.ignore_patterns("__pycache__"))
+        else:
+            shutil.copy(a, os.path.join(dst, fn))
     notes = open(os.path.join(src, "notes.md")).read() if os.path.exists(os.path.join(src, "notes.md")) else ""
     meta_path = os.path.join(dst, "meta.json")
     meta = json.load(open(meta_path)) if os.path.exists(meta_path) else {}
